@@ -16,6 +16,7 @@ import (
 // what that is depends on where the client's segments ended. Conversions to string copy and end the borrowing.
 func c04BorrowedLineNotUsedAfterNextRead(c *Ctx, rels ...string) {
 	const rule = "borrowed-line-not-used-after-read"
+	c.Explanation += " Windows of a buffered reader's own buffer (ReadSlice/Peek/Scanner.Bytes) are not used after a later read from the same reader."
 	p := c.P
 	borrows := func(f *ssa.Function) bool {
 		return MethodIs(f, "bufio", "Reader", "ReadSlice") || MethodIs(f, "bufio", "Reader", "Peek") || MethodIs(f, "bufio", "Scanner", "Bytes")
